@@ -54,7 +54,7 @@ type Report struct {
 }
 
 func newReport(prop, tier string, seed int64) *Report {
-	return &Report{Prop: prop, Tier: tier, Seed: seed, start: time.Now(), Functions: map[string]bool{}, Extra: map[string]interface{}{}}
+	return &Report{Prop: prop, Tier: tier, Seed: seed, start: procStart, Functions: map[string]bool{}, Extra: map[string]interface{}{}}
 }
 
 // ok records a discharged obligation.
